@@ -24,7 +24,15 @@ fn normalize(v: &mut [f32]) {
 /// dataset families: 0 uniform sphere, 1 gaussian clusters, 2 low-dimensional manifold
 fn gen_dataset(rng: &mut Rng, family: usize, dim: usize, n: usize, metric: DistanceMetric) -> Vec<Vec<f32>> {
     let mut out = Vec::with_capacity(n);
-    let centers: Vec<Vec<f64>> = (0..16).map(|_| (0..dim).map(|_| rng.gauss()).collect()).collect();
+    // families 3..5 are Gaussian-cluster variants: few large clusters / tight / loose
+    let (n_centers, sigma) = match family {
+        3 => (4usize, 0.25f64),
+        4 => (16, 0.1),
+        5 => (16, 0.5),
+        _ => (16, 0.25),
+    };
+    let family = if family >= 3 { 1 } else { family };
+    let centers: Vec<Vec<f64>> = (0..n_centers).map(|_| (0..dim).map(|_| rng.gauss()).collect()).collect();
     let latent = 3usize.min(dim);
     let basis: Vec<Vec<f64>> = (0..latent).map(|_| (0..dim).map(|_| rng.gauss()).collect()).collect();
     for _ in 0..n {
@@ -32,7 +40,7 @@ fn gen_dataset(rng: &mut Rng, family: usize, dim: usize, n: usize, metric: Dista
             0 => (0..dim).map(|_| rng.gauss() as f32).collect(),
             1 => {
                 let c = &centers[rng.usize_below(centers.len())];
-                (0..dim).map(|i| (c[i] + 0.25 * rng.gauss()) as f32).collect()
+                (0..dim).map(|i| (c[i] + sigma * rng.gauss()) as f32).collect()
             }
             _ => {
                 let z: Vec<f64> = (0..latent).map(|_| rng.gauss()).collect();
@@ -107,6 +115,30 @@ fn build_route(route: usize, metric: DistanceMetric, dim: usize, data: &[Vec<f32
             b.insert((n - 1) as u64, data[n - 1].clone(), HashMap::new())?;
             Ok(b)
         }
+        // heavy delete WITHOUT compaction: half as many junk documents again, interleaved and then
+        // deleted; capacity is roomy, so the tombstones are still in the graph when searching
+        4 => {
+            let extra = n / 2;
+            let b = HnswBackend::new(dim, metric, vec![], vec![], n + extra + 16)?;
+            let mut junk = 0usize;
+            for (i, v) in data.iter().enumerate() {
+                b.insert(i as u64, v.clone(), HashMap::new())?;
+                if junk < extra && i % 2 == 0 {
+                    // junk close to real data so that it competes for the candidate list
+                    let mut j = data[(i * 7 + 3) % n].clone();
+                    j[0] += 0.01;
+                    if normalizes(metric) {
+                        normalize(&mut j);
+                    }
+                    b.insert((1_000_000 + junk) as u64, j, HashMap::new())?;
+                    junk += 1;
+                }
+            }
+            for j in 0..junk {
+                b.delete((1_000_000 + j) as u64)?;
+            }
+            Ok(b)
+        }
         // recovery rebuild
         _ => {
             let dir = scratch.sub(&format!("route3-{}", n));
@@ -133,7 +165,7 @@ fn build_route(route: usize, metric: DistanceMetric, dim: usize, data: &[Vec<f32
 }
 
 fn route_name(r: usize) -> &'static str {
-    ["online", "bulk", "delete+compaction", "recovery"][r]
+    ["online", "bulk", "delete+compaction", "recovery", "delete-with-tombstones"][r]
 }
 
 pub fn run(args: &Args) -> Out {
@@ -144,7 +176,7 @@ pub fn run(args: &Args) -> Out {
     let sizes_q = [500usize, 1000];
     let sizes_t = [500usize, 1000, 2000, 5000];
     let mut grid = Vec::new();
-    for family in 0..3 {
+    for family in 0..(if args.thorough { 6 } else { 3 }) {
         for m in 0..3 {
             for (di, dim) in dims.iter().enumerate() {
                 let sizes: &[usize] = if args.thorough { &sizes_t } else { &sizes_q };
@@ -156,6 +188,26 @@ pub fn run(args: &Args) -> Out {
     }
     let mut rng0 = Rng::derive(args.seed, 0, 0xC16);
     rng0.shuffle(&mut grid);
+    if !args.thorough {
+        // the quick slice also carries the largest clustered collections (clusters much larger
+        // than the layer-0 degree are where neighbour-selection regressions show)
+        let mut big = Vec::new();
+        let (cos, l2, ip) = (metric_from(0), metric_from(1), metric_from(2));
+        for (fam, m, dim) in [(4usize, l2, 16usize), (4, l2, 32), (4, ip, 32), (4, ip, 64), (4, cos, 64), (3, ip, 64), (3, ip, 32), (1, l2, 32), (1, l2, 16), (1, cos, 64)] {
+            big.push((fam, m, dim, 5000usize, 0usize));
+        }
+        big.extend(grid.drain(..));
+        grid = big;
+    }
+    if std::env::var("C16_EXP").is_ok() {
+        grid.clear();
+        for fam in [1usize, 3, 4, 5] {
+            for (i, dim) in [16usize, 32, 64].iter().enumerate() {
+                grid.push((fam, metric_from(i), *dim, 5000usize, 0usize));
+                grid.push((fam, metric_from(i + 1), *dim, 5000usize, 0usize));
+            }
+        }
+    }
     let take = if args.thorough { grid.len() } else { 64 };
     let reps = if args.thorough { 2 } else { 1 };
     let mut case_no = 0usize;
@@ -166,10 +218,15 @@ pub fn run(args: &Args) -> Out {
                 continue;
             }
             let mut rng = Rng::derive(args.seed, (gi * 7 + rep) as u64, 0xD16);
-            let data = gen_dataset(&mut rng, *family, *dim, *n, *metric);
-            let nq = 200;
+            // data and held-out queries come from ONE draw of the family (same cluster centres / same
+            // manifold basis): the queries are in-distribution but not members of the collection
+            let mut all = gen_dataset(&mut rng, *family, *dim, *n + 400, *metric);
+            let fresh: Vec<Vec<f32>> = all.split_off(*n);
+            let data = all;
+            // two groups of 200 queries: even = perturbed data points, odd = held-out fresh draws; each
+            // group is a >= 200-query sample of the family and is judged on its own
+            let nq = 400;
             // queries: perturbed data points and fresh draws from the same family
-            let fresh = gen_dataset(&mut rng, *family, *dim, nq, *metric);
             let queries: Vec<Vec<f32>> = (0..nq)
                 .map(|i| {
                     if i % 2 == 0 {
@@ -189,9 +246,9 @@ pub fn run(args: &Args) -> Out {
             let truth: Vec<(Vec<usize>, f64)> = queries.iter().map(|q| brute_top10(*metric, q, &data)).collect();
             let scratch = Scratch::new("c16");
             let mut recalls = Vec::new();
-            let fam_name = ["uniform_sphere", "gaussian_clusters", "low_dim_manifold"][*family];
+            let fam_name = ["uniform_sphere", "gaussian_clusters", "low_dim_manifold", "gaussian_clusters_4_large", "gaussian_clusters_tight", "gaussian_clusters_loose"][*family];
             let desc = json!({"family": fam_name, "metric": metric_name(*metric), "dim": dim, "n": n, "rep": rep, "seed": args.seed});
-            for route in 0..4 {
+            for route in 0..5 {
                 let b = match build_route(route, *metric, *dim, &data, &scratch) {
                     Ok(b) => b,
                     Err(e) => {
@@ -204,6 +261,7 @@ pub fn run(args: &Args) -> Out {
                     continue;
                 }
                 let mut hit = 0usize;
+                let mut hit_group = [0usize; 2];
                 for (qi, q) in queries.iter().enumerate() {
                     let r1 = match b.knn_search(q, 10) {
                         Ok(r) => r,
@@ -218,6 +276,7 @@ pub fn run(args: &Args) -> Out {
                         let id = r.doc_id as usize;
                         if t.contains(&id) || (id < data.len() && ref_distance(*metric, q, &data[id]) <= truth[qi].1) {
                             hit += 1;
+                            hit_group[qi % 2] += 1;
                         }
                     }
                     // determinism: repeat twice more on the unchanged collection
@@ -246,9 +305,13 @@ pub fn run(args: &Args) -> Out {
                         }
                     }
                 }
-                let recall = hit as f64 / (10 * nq) as f64;
+                let _ = hit;
+                // the weaker of the two 200-query groups decides
+                let recall = hit_group.iter().map(|h| *h as f64 / (10 * (nq / 2)) as f64).fold(1.0, f64::min);
                 recalls.push(recall);
                 out.count("queries", nq as u64);
+                // (route 4, tombstones present, is not one of the four routes the property names: it is
+                // judged on the floor only, not on the route-drop clause; measured clean >= 0.98)
                 if recall < FLOOR {
                     out.violation(
                         format!("recall-below-floor|route{}", route),
@@ -257,9 +320,11 @@ pub fn run(args: &Args) -> Out {
                     );
                 }
             }
-            if recalls.len() == 4 {
-                let best = recalls.iter().cloned().fold(0.0, f64::max);
-                for (route, r) in recalls.iter().enumerate() {
+            if recalls.len() == 5 {
+                // the route-drop clause names four routes; the tombstones-present route (4) is judged
+                // on the floor only
+                let best = recalls.iter().take(4).cloned().fold(0.0, f64::max);
+                for (route, r) in recalls.iter().enumerate().take(4) {
                     if best - r > ROUTE_DROP {
                         out.violation(
                             format!("route-recall-drop|route{}", route),
@@ -270,6 +335,15 @@ pub fn run(args: &Args) -> Out {
                 }
                 let minr = recalls.iter().cloned().fold(1.0, f64::min);
                 out.set_max("max_min_recall_x1000_inverse", ((1.0 - minr) * 1000.0) as u64);
+                out.set_max("max_tombstone_route_recall_x1000_inverse", ((1.0 - recalls[4]) * 1000.0) as u64);
+                let min4 = recalls.iter().take(4).cloned().fold(1.0, f64::min);
+                out.set_max("max_named_routes_recall_x1000_inverse", ((1.0 - min4) * 1000.0) as u64);
+                if min4 < 0.90 || recalls[4] < 0.88 {
+                    out.note(format!("low-recall case (not a verdict): {} routes {:?}", desc, recalls.iter().map(|r| (r * 1000.0).round() / 1000.0).collect::<Vec<_>>()));
+                }
+                if *n <= 2000 {
+                    out.set_max("max_tombstone_route_n_le_2000_recall_x1000_inverse", ((1.0 - recalls[4]) * 1000.0) as u64);
+                }
             }
             out.eval();
             out.distinct(&desc.to_string());
